@@ -103,3 +103,24 @@ Theorem C05_monitor_holds_of_model :
                 c5_http := serve_sso cfg (cp_of_list []) (reg_of_list regl) now f s addr relay rnd |} = true.
 Proof. exact c05_spec_of_model. Qed.
 Print Assumptions C05_monitor_holds_of_model.
+
+(* A request that names no AssertionConsumerServiceURL is never matched by
+   Location — a registered endpoint with an empty Location (the metadata parser
+   blanks the Location of endpoints with unknown bindings such as PAOS) is not
+   selected because "" = "" — and a request whose only selector is an index no
+   registered endpoint carries is refused. *)
+Theorem C05_empty_url_never_selects_by_location :
+  forall md rq di ei d e,
+    rq_acs_url rq = "" -> get_acs_endpoint md rq = Some (di, ei, d, e) ->
+    (rq_acs_index rq <> "" /\ itoa (ep_index e) = rq_acs_index rq) \/
+    (rq_acs_index rq = "" /\ (ep_binding e = post_binding \/ ep_binding e = redirect_binding)).
+Proof. exact empty_url_never_selects_by_location. Qed.
+Print Assumptions C05_empty_url_never_selects_by_location.
+
+Theorem C05_unregistered_index_only_refused :
+  forall md rq,
+    rq_acs_url rq = "" -> rq_acs_index rq <> "" ->
+    desc_none_match (p_index (rq_acs_index rq)) (descriptors md) = true ->
+    get_acs_endpoint md rq = None.
+Proof. exact unregistered_index_only_refused. Qed.
+Print Assumptions C05_unregistered_index_only_refused.
